@@ -17,7 +17,7 @@ lane() {
   for m in "$@"; do
     pid=${m%%-*}
     git -C /tmp/reg/repo$k apply /verif/seeded/$m/patch.diff || { echo "$m APPLY-FAILED" >> /tmp/reg/results.txt; continue; }
-    out=$(cd /tmp/reg/verif$k && VERIF_DEV_SKIP_MC=1 VERIF_EVIDENCE_DIR=/tmp/reg/ev$k ./check $pid 2>&1); rc=$?
+    out=$(cd /tmp/reg/verif$k && VERIF_DEV_SKIP_MC=1 VERIF_EVIDENCE_DIR=/tmp/reg/ev$k ./check $pid 2>&1); rc=$?; echo "$out" > /tmp/reg/out-$m.log
     echo "$m rc=$rc $(echo "$out" | grep -c spec-divergence) divergences; $(echo "$out" | grep -m1 -A1 VIOLATION | tr '\n' ' ' | cut -c1-200)" >> /tmp/reg/results.txt
     git -C /tmp/reg/repo$k checkout -- . ; git -C /tmp/reg/repo$k clean -fdq
   done
